@@ -524,6 +524,9 @@ var parkPoints = map[string]bool{
 }
 
 func minePoint(point string) bool {
+	if point == "trig.spawn" { // not yet part of the specification in use
+		return false
+	}
 	return strings.HasPrefix(point, "sub.") || strings.HasPrefix(point, "trig.") || strings.HasPrefix(point, "shutdown.") || strings.HasPrefix(point, "upd.")
 }
 
